@@ -284,6 +284,7 @@ func fieldAddrName(fa *ssa.FieldAddr) (base ssa.Value, field string, ok bool) {
 // reaches a Return whose error result (last result) is not the nil constant.
 func rejectBlock(b *ssa.BasicBlock) (*ssa.Return, bool) {
 	seen := map[*ssa.BasicBlock]bool{}
+	var prev *ssa.BasicBlock
 	for b != nil && !seen[b] {
 		seen[b] = true
 		last := b.Instrs[len(b.Instrs)-1]
@@ -298,7 +299,14 @@ func rejectBlock(b *ssa.BasicBlock) (*ssa.Return, bool) {
 			}
 			return t, false
 		case *ssa.Jump:
-			b = b.Succs[0]
+			prev, b = b, b.Succs[0]
+		case *ssa.If:
+			// a merge block whose branch the arrival edge decides (jump threading)
+			fs := feasibleSuccs(prev, b)
+			if len(fs) != 1 {
+				return nil, false
+			}
+			prev, b = b, fs[0]
 		default:
 			return nil, false
 		}
@@ -309,6 +317,7 @@ func rejectBlock(b *ssa.BasicBlock) (*ssa.Return, bool) {
 // returnBlock reports whether block b unconditionally reaches a Return (any).
 func returnBlock(b *ssa.BasicBlock) *ssa.Return {
 	seen := map[*ssa.BasicBlock]bool{}
+	var prev *ssa.BasicBlock
 	for b != nil && !seen[b] {
 		seen[b] = true
 		last := b.Instrs[len(b.Instrs)-1]
@@ -316,7 +325,13 @@ func returnBlock(b *ssa.BasicBlock) *ssa.Return {
 		case *ssa.Return:
 			return t
 		case *ssa.Jump:
-			b = b.Succs[0]
+			prev, b = b, b.Succs[0]
+		case *ssa.If:
+			fs := feasibleSuccs(prev, b)
+			if len(fs) != 1 {
+				return nil
+			}
+			prev, b = b, fs[0]
 		default:
 			return nil
 		}
@@ -328,22 +343,44 @@ func returnBlock(b *ssa.BasicBlock) *ssa.Return {
 // and returns for each the successor taken when v is `val`.
 func branchSucc(v ssa.Value, val bool) []*ssa.BasicBlock {
 	var out []*ssa.BasicBlock
+	seen := map[ssa.Value]bool{}
 	var walk func(x ssa.Value, pol bool)
 	walk = func(x ssa.Value, pol bool) {
+		if seen[x] {
+			return
+		}
+		seen[x] = true
 		for _, r := range referrers(x) {
 			switch u := r.(type) {
 			case *ssa.If:
 				if u.Cond == x {
 					b := u.Block()
+					s := b.Succs[1]
 					if pol == val {
-						out = append(out, b.Succs[0])
-					} else {
-						out = append(out, b.Succs[1])
+						s = b.Succs[0]
 					}
+					// merge blocks whose branch this arrival decides are passed through
+					_, s = threadFrom(b, s)
+					out = append(out, s)
 				}
 			case *ssa.UnOp:
 				if u.Op == token.NOT {
 					walk(u, !pol)
+				}
+			case *ssa.Phi:
+				// the value is merged (last operand of && / ||, a result variable): where the
+				// merged value decides, this value decides on its edge
+				// (only when x is computed in the predecessor that jumps straight into the merge:
+				// then evaluating x means arriving over x's edge)
+				if xi, isInstr := x.(ssa.Instruction); isInstr && isBoolType(u.Type()) {
+					for i, e := range u.Edges {
+						p := u.Block().Preds[i]
+						if e == x && xi.Block() == p {
+							if _, isJump := p.Instrs[len(p.Instrs)-1].(*ssa.Jump); isJump {
+								walk(u, pol)
+							}
+						}
+					}
 				}
 			}
 		}
